@@ -53,6 +53,22 @@ func harnessDir(dir string) string {
 
 var registry = []propertySpec{
 	{
+		// Not a property: the differential self-test of the library models (vcheck --selftest). Every
+		// path is replayed natively and every observation compared with the real library.
+		ID:    "SELF",
+		Files: map[string][]string{"": {"zz_verif_self.go"}},
+		Harnesses: []harnessSpec{
+			{Name: "VerifSelf_Strings", Quick: tierSpec{Cases: 6}, Thorough: tierSpec{Cases: 6}, Sched: -1,
+				Bounds: "strings / strconv / unicode / html / bytes models on strings of 0..2 and 0..1 symbolic bytes over 9 characters"},
+			{Name: "VerifSelf_Regexp", Quick: tierSpec{Cases: 4}, Thorough: tierSpec{Cases: 4}, Sched: -1,
+				Bounds: "the ported regexp matcher on strings of 1..4 symbolic bytes through 7 patterns (match, submatches, replace)"},
+			{Name: "VerifSelf_Format", Quick: tierSpec{Cases: 3}, Thorough: tierSpec{Cases: 3}, Sched: -1,
+				Bounds: "fmt verbs, Itoa, json.Marshal / MarshalIndent, sort on a symbolic integer and a string of 0..2 symbolic bytes"},
+		},
+		Assumptions: []string{"none: this run validates the models"},
+		Outside:     "longer strings, non-ASCII symbolic bytes, the time, reflect and sync models (validated by the per-run trace comparison of the property checks)",
+	},
+	{
 		ID:    "SMOKE",
 		Files: map[string][]string{"q": {"zz_verif_smoke.go"}},
 		Harnesses: []harnessSpec{
